@@ -583,7 +583,7 @@ func init() { Register(c03{}) }
 func (c03) ID() string { return "C03" }
 func (c03) NRuns(tier string) int {
 	if tier == "thorough" {
-		return 400000
+		return 2000000
 	}
 	return 4000
 }
@@ -714,7 +714,7 @@ func init() { Register(c11{}) }
 func (c11) ID() string { return "C11" }
 func (c11) NRuns(tier string) int {
 	if tier == "thorough" {
-		return 300000
+		return 1500000
 	}
 	return 4000
 }
